@@ -2,10 +2,578 @@
 
 package bbr
 
+// C12 harness, layers 2-3: a discrete-event bottleneck simulator (capacity, RTT, queue, random and
+// burst loss, ack aggregation, app-limited phases, packet-number gaps, non-ack-eliciting packets,
+// MTU raises) generates QUIC-consistent traces following quic-go's call discipline and drives the
+// REAL bbrSender (fake clock, fake RTT stats).  After every event the harness evaluates the
+// property's own verdict on the real sender; for a sample of events it dumps the integer fields
+// before/after plus the oracle values the Coq model needs to recompute the update.
+
+import (
+	"fmt"
+	"math"
+	"math/rand"
+	"sort"
+	"time"
+
+	"github.com/apernet/quic-go/congestion"
+	"github.com/apernet/quic-go/monotime"
+)
+
 type c12SimIn struct {
-	Seed int64 `json:"seed"`
+	Seed     int64    `json:"seed"`
+	Profile  string   `json:"profile"`
+	Mds      int64    `json:"mds"`      // seed datagram size
+	CapBps   int64    `json:"cap"`      // bottleneck capacity, bytes/s
+	RttMs    int64    `json:"rtt"`      // base round-trip time
+	QueueB   int64    `json:"queue"`    // bottleneck queue, bytes
+	LossPm   int64    `json:"loss"`     // random loss, per mille
+	BurstEv  int64    `json:"burstEv"`  // every burstEv ms ...
+	BurstLen int64    `json:"burstLen"` // ... drop everything for burstLen ms (0: none)
+	AggMs    int64    `json:"agg"`      // acks released on a grid of agg ms (0: immediately)
+	Idle     [][2]int64 `json:"idle"`   // app-limited intervals [from,to) ms
+	GapPm    int64    `json:"gap"`      // packet-number skip probability, per mille
+	NonRtxPm int64    `json:"nonrtx"`   // non-ack-eliciting packet probability, per mille
+	Mtu      [][2]int64 `json:"mtu"`    // [time ms, new size]
+	DurMs    int64    `json:"dur"`
+	DumpMax  int      `json:"dumpMax"`  // max events dumped for the model comparison
+	TraceMax int      `json:"traceMax"` // length of the trace prefix dumped for quic_consistent / bookkeeping
+	Clean    bool     `json:"clean"`    // loss-free, never app-limited: throughput is reported
+}
+
+type c12Clock struct{ now *int64 }
+
+func (c c12Clock) Now() monotime.Time { return monotime.Time(*c.now) }
+
+type c12RTT struct{ min, latest, smoothed, dev time.Duration }
+
+func (r *c12RTT) MinRTT() time.Duration        { return r.min }
+func (r *c12RTT) LatestRTT() time.Duration     { return r.latest }
+func (r *c12RTT) SmoothedRTT() time.Duration   { return r.smoothed }
+func (r *c12RTT) MeanDeviation() time.Duration { return r.dev }
+func (r *c12RTT) MaxAckDelay() time.Duration   { return 25 * time.Millisecond }
+func (r *c12RTT) PTO(bool) time.Duration {
+	if r.smoothed == 0 {
+		return 200 * time.Millisecond
+	}
+	return r.smoothed + max(4*r.dev, time.Millisecond) + 25*time.Millisecond
+}
+func (r *c12RTT) UpdateRTT(s, _ time.Duration) {
+	r.latest = s
+	if r.min == 0 || s < r.min {
+		r.min = s
+	}
+	if r.smoothed == 0 {
+		r.smoothed, r.dev = s, s/2
+	} else {
+		d := r.smoothed - s
+		if d < 0 {
+			d = -d
+		}
+		r.dev = (3*r.dev + d) / 4
+		r.smoothed = (7*r.smoothed + s) / 8
+	}
+}
+func (r *c12RTT) SetMaxAckDelay(time.Duration) {}
+func (r *c12RTT) SetInitialRTT(time.Duration)  {}
+
+type c12Pkt struct {
+	pn       int64
+	size     int64
+	sent     int64
+	ackAt    int64 // arrival time of its ack at the sender; -1: dropped by the network
+	idx      int64 // ordinal among sent packets (quic-go counts reordering distance on sent packets)
+}
+
+func c12Fields(b *bbrSender) []int64 {
+	return []int64{
+		int64(b.maxDatagramSize), int64(b.minCongestionWindow), int64(b.maxCongestionWindow), int64(b.initialCongestionWindow),
+		int64(b.cwndToCalculateMinPacingRate), int64(b.maxCongestionWindowWithNetworkParametersAdjusted),
+		int64(b.congestionWindow), int64(b.recoveryWindow), int64(b.mode), int64(b.recoveryState), c12B(b.isAtFullBandwidth),
+		int64(b.endRecoveryAt), int64(b.lastSentPacket), int64(b.currentRoundTripEnd), int64(b.roundTripCount & 0x7fffffffffffffff),
+		int64(b.bytesInFlight),
+	}
+}
+
+func c12CloneSampler(s *bandwidthSampler) *bandwidthSampler {
+	c := *s
+	q := *s.connectionStateMap
+	q.entries.ring = append([]entryWrapper[connectionStateOnSentPacket](nil), s.connectionStateMap.entries.ring...)
+	c.connectionStateMap = &q
+	c.a0Candidates.ring = append([]ackPoint(nil), s.a0Candidates.ring...)
+	t := *s.maxAckHeightTracker
+	f := *s.maxAckHeightTracker.maxAckHeightFilter
+	f.estimates = append([]entry[extraAckedEvent, roundTripCount](nil), f.estimates...)
+	t.maxAckHeightFilter = &f
+	c.maxAckHeightTracker = &t
+	return &c
+}
+
+// the pacer bandwidth before the floor: congestion.ByteCount(float64(PacingRate())/float64(BytesPerSecond))
+func c12RawBps(b *bbrSender) int64 {
+	return int64(congestion.ByteCount(float64(b.PacingRate()) / float64(BytesPerSecond)))
 }
 
 func c12Sim(in *c12SimIn, res map[string]any) {
-	res["ok"], res["why"] = true, ""
+	rng := rand.New(rand.NewSource(in.Seed))
+	var now int64 = int64(time.Millisecond) // monotime zero is "unset": start at 1 ms
+	rtt := &c12RTT{}
+	b := NewBbrSender(c12Clock{&now}, congestion.ByteCount(in.Mds), Profile(in.Profile))
+	b.SetRTTStatsProvider(rtt)
+	agg := b.enableAckAggregationDuringStartup
+
+	ok, why := true, ""
+	evNo := 0
+	fail := func(s string) {
+		if ok {
+			ok, why = false, fmt.Sprintf("event %d at %.3f ms: %s", evNo, float64(now)/1e6, s)
+		}
+	}
+
+	ms := int64(time.Millisecond)
+	mds := in.Mds
+	var outstanding []*c12Pkt // ascending pn
+	var bytesInFlight int64
+	nextPn := int64(0)
+	sentIdx := int64(0)
+	largestAcked := int64(-1)
+	largestAckedIdx := int64(-1)
+	var linkFree int64
+	var delivered, deliveredAfterWarm int64
+	warm := int64(2000) * ms
+	lastLeast := int64(-1 << 62)
+	firstSent := int64(-1)
+	lastSentPn := int64(-1)
+	lastAckEliciting := now
+	ptoCount := 0
+	mtuI := 0
+	modesSeen := map[int]bool{}
+	recSeen := map[int]bool{}
+	nSent, nCong, nLossOnly, nSetMds, nGaps, nNonRtx, nLost := 0, 0, 0, 0, 0, 0, 0
+	consistent := true
+	var dumps [][]int64
+	var trace [][]int64
+	maxSlots := 0
+
+	inIdle := func(t int64) bool {
+		for _, iv := range in.Idle {
+			if t >= iv[0]*ms && t < iv[1]*ms {
+				return true
+			}
+		}
+		return false
+	}
+	nextIdleEnd := func(t int64) int64 {
+		for _, iv := range in.Idle {
+			if t >= iv[0]*ms && t < iv[1]*ms {
+				return iv[1] * ms
+			}
+		}
+		return -1
+	}
+	wantDump := func(interesting bool) bool {
+		if len(dumps) >= in.DumpMax {
+			return false
+		}
+		if evNo < in.DumpMax/3 || interesting {
+			return true
+		}
+		return rng.Intn(40) == 0
+	}
+
+	// property verdict on the real sender, after every event
+	verdict := func() {
+		cw := int64(b.GetCongestionWindow())
+		m := int64(b.maxDatagramSize)
+		if cw < 4*m || cw > int64(b.maxCongestionWindow) {
+			fail(fmt.Sprintf("GetCongestionWindow=%d outside [4*mds=%d, max=%d] (mode %d, recovery %d)", cw, 4*m, b.maxCongestionWindow, b.mode, b.recoveryState))
+		}
+		if bw := int64(b.bandwidthForPacer()); bw < 65536 {
+			fail(fmt.Sprintf("bandwidthForPacer=%d < 65536", bw))
+		}
+		slots := b.sampler.connectionStateMap.EntrySlotsUsed()
+		if slots > maxSlots {
+			maxSlots = slots
+		}
+		// leastUnacked = the estimate of the last congestion event (lastAcked-2 / lastLost+1), or the first
+		// packet ever sent before any event; the constant is 0: RemoveUpTo leaves first >= leastUnacked and the
+		// queue's last entry is the last retransmittable packet sent (theorem C12_bookkeeping_bounded)
+		least := max(lastLeast, firstSent)
+		if bound := max(0, lastSentPn-least+1); int64(slots) > bound {
+			fail(fmt.Sprintf("EntrySlotsUsed=%d > lastSent-leastUnacked+1=%d (lastSent %d, leastUnacked %d)", slots, bound, lastSentPn, least))
+		}
+		for _, f := range []int64{0, 1, 4*m - 1, bytesInFlight} {
+			if f < 4*m && !b.CanSend(congestion.ByteCount(f)) {
+				fail(fmt.Sprintf("CanSend(%d) is false although bytesInFlight < 4*mds=%d", f, 4*m))
+			}
+		}
+		modesSeen[int(b.mode)] = true
+		recSeen[int(b.recoveryState)] = true
+	}
+	traceObs := func() []int64 {
+		q := b.sampler.connectionStateMap
+		return []int64{int64(q.NumberOfPresentEntries()), int64(q.FirstPacket()), int64(q.EntrySlotsUsed())}
+	}
+
+	sendPacket := func(size int64, retx bool) {
+		if rng.Int63n(1000) < in.GapPm {
+			nextPn += 1 + rng.Int63n(3) // quic-go skips packet numbers deliberately
+			nGaps++
+		}
+		pn := nextPn
+		nextPn++
+		if pn <= lastSentPn || size <= 0 {
+			consistent = false
+		}
+		if retx {
+			bytesInFlight += size
+		}
+		before := c12Fields(b)
+		p, msg := vCatch(func() {
+			b.OnPacketSent(monotime.Time(now), congestion.ByteCount(bytesInFlight), congestion.PacketNumber(pn), congestion.ByteCount(size), retx)
+		})
+		evNo++
+		nSent++
+		lastSentPn = pn
+		if firstSent < 0 {
+			firstSent = pn
+		}
+		if p {
+			fail("panic in OnPacketSent: " + msg)
+			return
+		}
+		if wantDump(false) && rng.Intn(4) == 0 {
+			d := append([]int64{0}, before...)
+			d = append(d, pn, bytesInFlight)
+			d = append(d, c12Fields(b)...)
+			d = append(d, int64(b.GetCongestionWindow()), c12RawBps(b), int64(b.bandwidthForPacer()))
+			dumps = append(dumps, d)
+		}
+		if len(trace) < in.TraceMax {
+			trace = append(trace, append([]int64{0, pn, size, c12B(retx)}, traceObs()...))
+		}
+		verdict()
+		if !retx {
+			nNonRtx++
+			return
+		}
+		lastAckEliciting = now
+		pkt := &c12Pkt{pn: pn, size: size, sent: now, ackAt: -1, idx: sentIdx}
+		sentIdx++
+		outstanding = append(outstanding, pkt)
+		// the network
+		drop := rng.Int63n(1000) < in.LossPm
+		if in.BurstLen > 0 && in.BurstEv > 0 && (now/ms)%in.BurstEv < in.BurstLen && now > 500*ms {
+			drop = true
+		}
+		backlog := max(0, linkFree-now) * in.CapBps / 1e9
+		if backlog+size > in.QueueB+size { // tail drop
+			drop = true
+		}
+		if drop {
+			return
+		}
+		depart := max(now, linkFree) + size*1e9/in.CapBps
+		linkFree = depart
+		at := depart + in.RttMs*ms
+		if in.AggMs > 0 {
+			g := in.AggMs * ms
+			at = (at/g + 1) * g
+		}
+		pkt.ackAt = at
+	}
+
+	congEvent := func(acked, lost []*c12Pkt) {
+		prior := bytesInFlight
+		var ai []congestion.AckedPacketInfo
+		var li []congestion.LostPacketInfo
+		var sumA, sumL int64
+		gone := map[int64]bool{}
+		for _, p := range acked {
+			ai = append(ai, congestion.AckedPacketInfo{PacketNumber: congestion.PacketNumber(p.pn), BytesAcked: congestion.ByteCount(p.size)})
+			sumA += p.size
+			gone[p.pn] = true
+		}
+		for _, p := range lost {
+			li = append(li, congestion.LostPacketInfo{PacketNumber: congestion.PacketNumber(p.pn), BytesLost: congestion.ByteCount(p.size)})
+			sumL += p.size
+			if gone[p.pn] {
+				consistent = false
+			}
+			gone[p.pn] = true
+		}
+		if len(ai)+len(li) == 0 {
+			consistent = false
+		}
+		for i := 1; i < len(ai); i++ {
+			if ai[i].PacketNumber <= ai[i-1].PacketNumber {
+				consistent = false
+			}
+		}
+		for i := 1; i < len(li); i++ {
+			if li[i].PacketNumber <= li[i-1].PacketNumber {
+				consistent = false
+			}
+		}
+		keep := outstanding[:0]
+		found := 0
+		for _, p := range outstanding {
+			if gone[p.pn] {
+				found++
+			} else {
+				keep = append(keep, p)
+			}
+		}
+		if found != len(gone) {
+			consistent = false // acked / lost a packet that is not outstanding
+		}
+		outstanding = keep
+		bytesInFlight -= sumA + sumL
+		nLost += len(li)
+
+		before := c12Fields(b)
+		bestBefore := b.maxBandwidth.GetBest()
+		totA0, totL0 := b.sampler.TotalBytesAcked(), b.sampler.TotalBytesLost()
+		clone := c12CloneSampler(b.sampler)
+		if congestion.ByteCount(prior) < b.getTargetCongestionWindow(1) {
+			clone.OnAppLimited()
+		}
+		p, msg := vCatch(func() {
+			b.OnCongestionEventEx(congestion.ByteCount(prior), monotime.Time(now), ai, li)
+		})
+		evNo++
+		nCong++
+		if len(ai) == 0 {
+			nLossOnly++
+		}
+		if p {
+			fail("panic in OnCongestionEventEx: " + msg)
+			return
+		}
+		if len(ai) != 0 {
+			lastLeast = int64(ai[len(ai)-1].PacketNumber) - 2
+		} else {
+			lastLeast = int64(li[len(li)-1].PacketNumber) + 1
+		}
+		after := c12Fields(b)
+		interesting := before[8] != after[8] || before[9] != after[9] || before[10] != after[10] || len(li) > 0
+		if wantDump(interesting) {
+			sample := clone.OnCongestionEvent(monotime.Time(now), ai, li, bestBefore, infBandwidth, b.roundTripCount)
+			la := int64(-1)
+			if len(ai) != 0 {
+				la = int64(ai[len(ai)-1].PacketNumber)
+			}
+			d := append([]int64{1}, before...)
+			d = append(d, prior, sumA, sumL, c12B(len(ai) != 0), la, c12B(len(li) != 0),
+				after[8], after[10], int64(b.getTargetCongestionWindow(b.congestionWindowGain)), int64(b.sampler.MaxAckHeight()),
+				int64(sample.extraAcked), int64(b.sampler.TotalBytesAcked()-totA0), int64(b.sampler.TotalBytesLost()-totL0),
+				int64(b.sampler.TotalBytesAcked()))
+			d = append(d, after...)
+			d = append(d, int64(b.GetCongestionWindow()), c12RawBps(b), int64(b.bandwidthForPacer()))
+			dumps = append(dumps, d)
+		}
+		if len(trace) < in.TraceMax {
+			t := []int64{1, int64(len(ai)), int64(len(li))}
+			for _, a := range ai {
+				t = append(t, int64(a.PacketNumber), int64(a.BytesAcked))
+			}
+			for _, l := range li {
+				t = append(t, int64(l.PacketNumber), int64(l.BytesLost))
+			}
+			trace = append(trace, append(t, traceObs()...))
+		}
+		verdict()
+	}
+
+	end := in.DurMs * ms
+	stalledSince := int64(-1)
+	for now < end && ok {
+		// 1. MTU raise
+		if mtuI < len(in.Mtu) && now >= in.Mtu[mtuI][0]*ms {
+			s := in.Mtu[mtuI][1]
+			mtuI++
+			if s >= mds && s <= int64(congestion.MaxPacketBufferSize) {
+				before := c12Fields(b)
+				p, msg := vCatch(func() { b.SetMaxDatagramSize(congestion.ByteCount(s)) })
+				evNo++
+				nSetMds++
+				mds = s
+				if p {
+					fail("panic in SetMaxDatagramSize: " + msg)
+					break
+				}
+				if len(dumps) < in.DumpMax+8 {
+					d := append([]int64{2}, before...)
+					d = append(d, s)
+					d = append(d, c12Fields(b)...)
+					d = append(d, int64(b.GetCongestionWindow()), c12RawBps(b), int64(b.bandwidthForPacer()))
+					dumps = append(dumps, d)
+				}
+				if len(trace) < in.TraceMax {
+					trace = append(trace, append([]int64{2, s}, traceObs()...))
+				}
+				verdict()
+			}
+		}
+		// 2. acks that have arrived: one congestion event per arrival instant
+		var acked []*c12Pkt
+		for _, p := range outstanding {
+			if p.ackAt >= 0 && p.ackAt <= now {
+				acked = append(acked, p)
+			}
+		}
+		if len(acked) > 0 {
+			sort.Slice(acked, func(i, j int) bool { return acked[i].pn < acked[j].pn })
+			top := acked[len(acked)-1]
+			for _, p := range acked {
+				delivered += p.size
+				if now >= warm {
+					deliveredAfterWarm += p.size
+				}
+			}
+			if top.pn > largestAcked {
+				largestAcked, largestAckedIdx = top.pn, top.idx
+				rtt.UpdateRTT(time.Duration(now-top.sent), 0)
+			}
+			ptoCount = 0
+			// quic-go loss detection: reordering threshold 3 (counted on sent packets) or time threshold 9/8 RTT
+			lossDelay := int64(max(rtt.latest, rtt.smoothed)) * 9 / 8
+			isAcked := map[int64]bool{}
+			for _, p := range acked {
+				isAcked[p.pn] = true
+			}
+			var lost []*c12Pkt
+			for _, p := range outstanding {
+				if isAcked[p.pn] || p.pn > largestAcked {
+					continue
+				}
+				if largestAckedIdx-p.idx >= 3 || p.sent <= now-lossDelay {
+					lost = append(lost, p)
+				}
+			}
+			congEvent(acked, lost)
+			continue
+		}
+		// 3. loss timer: packets below the largest acked that have waited 9/8 RTT (loss-only event)
+		if largestAcked >= 0 && len(outstanding) > 0 {
+			lossDelay := int64(max(rtt.latest, rtt.smoothed)) * 9 / 8
+			var lost []*c12Pkt
+			for _, p := range outstanding {
+				if p.pn < largestAcked && p.sent <= now-lossDelay {
+					lost = append(lost, p)
+				}
+			}
+			if len(lost) > 0 {
+				congEvent(nil, lost)
+				continue
+			}
+		}
+		// 4. send
+		idle := inIdle(now)
+		sentNow := false
+		if !idle {
+			for n := 0; n < 64 && b.CanSend(congestion.ByteCount(bytesInFlight)) && b.HasPacingBudget(monotime.Time(now)); n++ {
+				if rng.Int63n(1000) < in.NonRtxPm {
+					sendPacket(40+rng.Int63n(40), false)
+				}
+				size := mds
+				if rng.Intn(50) == 0 {
+					size = 100 + rng.Int63n(mds-100)
+				}
+				sendPacket(size, true)
+				sentNow = true
+			}
+		}
+		// PTO probe: quic-go sends probe packets regardless of the window when nothing came back
+		pto := int64(rtt.PTO(true)) << min(ptoCount, 6)
+		if len(outstanding) > 0 && now-lastAckEliciting >= pto {
+			ptoCount++
+			sendPacket(mds, true)
+			sentNow = true
+		}
+		// 5. next wake-up
+		next := end
+		for _, p := range outstanding {
+			if p.ackAt > now && p.ackAt < next {
+				next = p.ackAt
+			}
+		}
+		if mtuI < len(in.Mtu) && in.Mtu[mtuI][0]*ms > now {
+			next = min(next, in.Mtu[mtuI][0]*ms)
+		}
+		if idle {
+			if e := nextIdleEnd(now); e > now {
+				next = min(next, e)
+			}
+		} else if b.CanSend(congestion.ByteCount(bytesInFlight)) {
+			t := int64(b.TimeUntilSend(congestion.ByteCount(bytesInFlight)))
+			if t <= now {
+				if !sentNow && !b.HasPacingBudget(monotime.Time(now)) {
+					fail("pacer deadlock: TimeUntilSend is not in the future but HasPacingBudget is false")
+				}
+				t = now + 1
+			} else if !b.HasPacingBudget(monotime.Time(t)) {
+				fail(fmt.Sprintf("pacer announces wake-up %d ns ahead but has no budget for a datagram then", t-now))
+			}
+			next = min(next, t)
+		}
+		for _, iv := range in.Idle {
+			if iv[0]*ms > now {
+				next = min(next, iv[0]*ms)
+			}
+		}
+		if len(outstanding) > 0 {
+			next = min(next, max(now+1, lastAckEliciting+pto))
+			if largestAcked >= 0 {
+				lossDelay := int64(max(rtt.latest, rtt.smoothed)) * 9 / 8
+				for _, p := range outstanding {
+					if p.pn < largestAcked {
+						next = min(next, max(now+1, p.sent+lossDelay))
+						break
+					}
+				}
+			}
+		}
+		if next <= now {
+			next = now + 1
+		}
+		if !idle && !sentNow && len(outstanding) == 0 && !b.CanSend(congestion.ByteCount(bytesInFlight)) {
+			if stalledSince < 0 {
+				stalledSince = now
+			}
+			fail("deadlock: nothing in flight, application has data, CanSend is false")
+		}
+		now = next
+	}
+
+	if !consistent {
+		ok, why = false, "harness bug: generated trace is not QUIC-consistent ("+why+")"
+	}
+	res["ok"], res["why"] = ok, why
+	res["agg"] = agg
+	res["dumps"] = dumps
+	res["trace"] = trace
+	res["consistent"] = consistent
+	modes := []int{}
+	for m := range modesSeen {
+		modes = append(modes, m)
+	}
+	sort.Ints(modes)
+	recs := []int{}
+	for m := range recSeen {
+		recs = append(recs, m)
+	}
+	sort.Ints(recs)
+	thr := 0.0
+	if end > warm {
+		thr = float64(deliveredAfterWarm) / (float64(end-warm) / 1e9) / float64(in.CapBps)
+	}
+	if math.IsNaN(thr) {
+		thr = 0
+	}
+	res["stats"] = map[string]any{
+		"sent": nSent, "cong": nCong, "lossOnly": nLossOnly, "setMds": nSetMds, "gaps": nGaps, "nonRtx": nNonRtx, "lost": nLost,
+		"modes": modes, "recovery": recs, "delivered": delivered, "throughputRatio": thr, "maxSlots": maxSlots,
+		"finalCwnd": int64(b.GetCongestionWindow()), "events": evNo,
+	}
 }
